@@ -372,6 +372,8 @@ def _apply(via, kspec, sigs):
     tr = gen.make_track(coords)
     if "a" in sigs:
         tr.createAnalyticalFeature("a", list(sigs["a"]))
+    if (n + len(names)) % 4 == 2:
+        tr, _how = gen.derive(tr, (coords, names))
     # kernel argument as the API takes it + the weights the oracle uses
     if "weights" in kspec:
         karg = [v for v in kspec["weights"]]
